@@ -14,6 +14,7 @@ THEOREMS = [
     "Mpir.Mm1.mpn_powm_correct_pinned",
     "Mpir.Mm1.next_size_mono",
     "Mpir.Mm1.mpz_powm_scratch_ok_even",
+    "Mpir.Mm1.mpz_powm_crt_indices_ok",
 ]
 TRUSTED = ["hand-written model lean/Mpir/Model/Mulmod2expm1.lean: mpn_mulmod_2expm1_basecase, mpn_mulmod_2expm1 (split into the "
            "2^h-1 / 2^h+1 halves on both the k == 0 and k != 0 paths, recursion, flags c1*2+c2, recombination, final halving), "
@@ -28,7 +29,7 @@ RULE = ("mpn_mulmod_2expm1: b odd / even, below and above MULMOD_2EXPM1_THRESHOL
         "2^h - 1 and 2^h + 1: 0, -1, 1, random, the pairs (A, 2^h - A) (borrow out of S) and (S, S + 1) (carry out of D); operand "
         "halves = -1 (upper half = lower half + 1) for y, z, both, neither; 0; 2^b - 1")
 
-PINS = [("mpn/generic/mulmod_2expm1.c", None), ("gmp-impl.h", "mpn_mulmod_bnm1_next_size"), ("gmp-impl.h", "mpn_mulmod_bnm1_itch"),
+PINS = [("mpz/powm.c", "mpz_powm"), ("mpn/generic/binvert.c", "mpn_binvert_itch"), ("mpn/generic/mulmod_2expm1.c", None), ("gmp-impl.h", "mpn_mulmod_bnm1_next_size"), ("gmp-impl.h", "mpn_mulmod_bnm1_itch"),
         ("gmp-impl.h", "mpn_half")]
 
 def crt(za, zb, h):
